@@ -213,7 +213,7 @@ class InfraError(Exception):
 class Check:
     """One run of one property's check."""
 
-    def __init__(self, prop, tier, seed):
+    def __init__(self, prop, tier, seed, clear_replays=True):
         self.prop, self.tier, self.seed = prop, tier, seed
         self.rng = random.Random(seed * 1000003 + int(hashlib.sha256(prop.encode()).hexdigest()[:8], 16))
         self.t0 = time.time()
@@ -228,7 +228,7 @@ class Check:
         self.assumptions = []
         self.nreplay = 0
         rd = os.path.join(VERIF, "replays")
-        if os.path.isdir(rd):
+        if clear_replays and os.path.isdir(rd):
             for fn in os.listdir(rd):
                 if fn.startswith(prop + "-"):
                     os.unlink(os.path.join(rd, fn))
